@@ -197,6 +197,7 @@ def ops_for(names):
         for b in signed:
             if base(a) != base(b):
                 ops.append(("add", a, b))
+        ops.append(("add", a, a))        # reflexive: a legal no-op
     for a in signed:
         ops.append(("remove", a))
     return ops, signed
@@ -353,6 +354,9 @@ def random_histories(ctx, AR, count, nnames=8, length=60):
                     continue
                 if r < 0.25:
                     op = ("remove", rng.choice(names))
+                elif r < 0.30:
+                    a = rng.choice(("", "-")) + rng.choice(names)
+                    op = ("add", a, a)
                 else:
                     a, b = rng.sample(names, 2)
                     op = ("add", rng.choice(("", "-")) + a, rng.choice(("", "-")) + b)
